@@ -105,6 +105,7 @@ type LockSets struct {
 // provided no deferred unlock registered later releases it first.
 func ComputeLockSets(p *Prog, cg *CallGraph, fns []*ssa.Function) *LockSets {
 	ls := &LockSets{At: map[ssa.Instruction]lockSet{}, Entry: map[*ssa.Function]lockSet{}}
+	fns = append(append([]*ssa.Function(nil), fns...), viewsOf(p, fns)...)
 	for _, f := range fns {
 		ls.Entry[f] = lockSet{}
 	}
